@@ -24,7 +24,7 @@ ASSUMPTIONS = [
     "asset caps (GetMesh*, GetTexture*, ViewerAsset*) resolve without region/session unless registered as wrappers, as the code documents",
 ]
 FLOORS = {"quick": {"histories": 600, "lookups": 8000, "seed_flows": 1500, "temporary_resolved": 150, "proxy_cap_twice": 150,
-                    "regrant_same_name": 300, "ambiguous_lookups": 50, "circuit_torn_down": 40}}
+                    "regrant_same_name": 300, "ambiguous_lookups": 50, "circuit_torn_down": 30, "seed_overlaps": 8, "used_up_rechecked": 100}}
 MANIFEST = {
     "text": "Model-based testing of the caps registry through its public entry points and real Seed flows: after every operation "
             "every URL ever granted is resolved (with suffixes) and every name looked up, and compared with a reference model of "
@@ -87,6 +87,26 @@ def seed_cycle(world, s, r, requested, grant):
     return sent, llsd.parse_xml(f3.response.content), errs
 
 
+def seed_request(world, s, r, requested):
+    region = world.sessions[s].regions[r]
+    flow = world.make_flow("POST", region.caps["Seed"][1], body=llsd.format_xml(requested), headers={"Content-Type": "application/llsd+xml"})
+    items, exc = world.pump("request", flow.get_state())
+    if exc is not None or len(items) != 1:
+        return None, None
+    f2 = HTTPFlow.from_state(items[0][2])
+    return llsd.parse_xml(f2.request.content), f2
+
+
+def seed_response(world, f2, grant):
+    from mitmproxy.test import tutils
+    f2.response = tutils.tresp(status_code=200, content=llsd.format_xml(grant))
+    f2.response.headers["Content-Type"] = "application/llsd+xml"
+    items, exc = world.pump("response", f2.get_state())
+    if exc is not None or len(items) != 1:
+        return None
+    return llsd.parse_xml(HTTPFlow.from_state(items[0][2]).response.content)
+
+
 class Run:
     def __init__(self, hist):
         self.w = HttpWorld(2, 2)
@@ -97,6 +117,7 @@ class Run:
         self.proxy_urls = {}
         self.ambiguous_urls = set()
         self.consumed = set()
+        self.used_up = []
 
     def count(self, k, n=1):
         self.counts[k] = self.counts.get(k, 0) + n
@@ -136,6 +157,20 @@ class Run:
                     url = e["url"] + suffix
                     self.count("lookups")
                     out.extend(self.check_lookup(url))
+        # a one-shot cap that was used stays used, whatever has been registered since
+        for name, url in self.used_up[-6:]:
+            if m.matches(url):
+                continue        # the same URL has been granted again since (or extends another grant)
+            self.count("used_up_rechecked")
+            cd = w.sm.resolve_cap(url)
+            if cd and cd.cap_name == name and cd.base_url == url:
+                out.append(("temporary:resolves-twice:later", "one-shot cap %s (%s) resolved again after it had been used" % (name, url)))
+            for key in m.entries:
+                try:
+                    if self.region(*key).cap_urls.get(name) == url and not any(e["url"] == url for e in m.entries[key]):
+                        out.append(("temporary:still-listed", "used one-shot cap %s is still listed under its name in region %r" % (name, key)))
+                except Exception:
+                    pass
         return out
 
     def check_lookup(self, url, expect_consumed=False):
@@ -179,6 +214,7 @@ class Run:
             for x in lst:
                 if x["type"] == CapType.TEMPORARY and x["name"] == cd.cap_name and x["url"] == cd.base_url:
                     self.m.entries[key] = [y for y in lst if y is not x]
+                    self.used_up.append((x["name"], x["url"]))
                     return True
         return False
 
@@ -190,6 +226,7 @@ class Run:
             return False
         if cd.cap_name == e["name"] and cd.base_url == e["url"]:
             self.m.entries[key] = [x for x in self.m.entries[key] if x is not e]
+            self.used_up.append((e["name"], e["url"]))
             return True
         self.count("temporary_shadowed_by_prefix")
         if cd.type == CapType.TEMPORARY:
@@ -316,6 +353,9 @@ class Run:
             region = self.region(s, r)
             prev = m.by_name(key, name)
             url = region.register_proxy_cap(name)
+            for k2, lst in m.entries.items():
+                if k2 != key and any(e["url"] == url for e in lst):
+                    out.append(("proxy-cap:url-not-unique", "proxy-only cap %s of region %r got the URL that region %r already has: %s" % (name, key, k2, url)))
             if prev is not None and prev["type"] == CapType.PROXY_ONLY:
                 self.count("proxy_cap_twice")
                 if url != prev["url"]:
@@ -329,6 +369,42 @@ class Run:
                 if url2 != url:
                     out.append(("proxy-cap:new-url-on-reregistration", "register_proxy_cap(%s) twice in a row: %s then %s" % (name, url, url2)))
                     m.add(key, name, CapType.PROXY_ONLY, url2)
+            self.nontrivial = True
+        elif k == "seed_overlap":
+            # the viewer has two Seed requests for one region in flight (it re-requests capabilities it is still missing): the first lists
+            # proxy-only names, the second does not; the answers come back in order.  What is added to an answer belongs to its own request
+            _, s, r, names_a, names_b, req_proxy = op
+            key = (s, r)
+            plain = [n for n in NAMES if n not in ASSET_NAMES]
+            names_a = [n for n in names_a if n in plain]
+            names_b = [n for n in names_b if n in plain and n not in names_a]
+            registered_proxy = [n for n in PROXY_NAMES if m.by_name(key, n) is not None and m.by_name(key, n)["type"] == CapType.PROXY_ONLY]
+            want_proxy = [n for n in req_proxy if n in registered_proxy]
+            if not want_proxy:
+                return None
+            sent_a, fa = seed_request(w, s, r, names_a + want_proxy)
+            sent_b, fb = seed_request(w, s, r, names_b)
+            if fa is None or fb is None:
+                return [("seed:request-handback", "overlapping Seed requests were not handed back once each")]
+            if list(sent_a) != names_a or list(sent_b) != names_b:
+                out.append(("seed-request:altered", "overlapping Seed requests %r / %r were forwarded as %r / %r" % (names_a + want_proxy, names_b, sent_a, sent_b)))
+            grant_a = {n: self.fresh_url(s, r) for n in names_a}
+            grant_b = {n: self.fresh_url(s, r) for n in names_b}
+            resp_a = seed_response(w, fa, grant_a)
+            for n, u in grant_a.items():
+                m.add(key, n, CapType.NORMAL, u)
+            resp_b = seed_response(w, fb, grant_b)
+            for n, u in grant_b.items():
+                m.add(key, n, CapType.NORMAL, u)
+            exp_a = dict(grant_a, **{n: m.by_name(key, n)["url"] for n in want_proxy})
+            if resp_a is None or resp_b is None:
+                out.append(("seed:response-handback", "overlapping Seed responses were not handed back once each"))
+            else:
+                if dict(resp_a) != exp_a:
+                    out.append(("seed-response:proxy-cap:overlap", "first of two overlapping Seed answers: got %r expected %r" % (dict(resp_a), exp_a)))
+                if dict(resp_b) != grant_b:
+                    out.append(("seed-response:other:overlap", "second of two overlapping Seed answers: got %r expected %r" % (dict(resp_b), grant_b)))
+            self.count("seed_overlaps")
             self.nontrivial = True
         elif k == "circuit":
             # the simulator connection of a region comes up / is torn down (DisableSimulator, CloseCircuit): its caps stay what they were
@@ -386,6 +462,8 @@ OP = st.one_of(
     st.tuples(st.just("seed"), st.integers(0, 1), st.integers(0, 1), st.lists(st.sampled_from(NAMES), min_size=0, max_size=6, unique=True),
               st.booleans(), st.booleans(), st.lists(st.sampled_from(PROXY_NAMES), max_size=3, unique=True), st.booleans()),
     st.tuples(st.just("circuit"), st.integers(0, 1), st.integers(0, 1), st.booleans()),
+    st.tuples(st.just("seed_overlap"), st.integers(0, 1), st.integers(0, 1), st.lists(st.sampled_from(NAMES[:6]), max_size=3, unique=True),
+              st.lists(st.sampled_from(NAMES[:6]), max_size=3, unique=True), st.lists(st.sampled_from(PROXY_NAMES), min_size=1, max_size=3, unique=True)),
     st.tuples(st.just("register"), st.integers(0, 1), st.integers(0, 1), st.sampled_from(["UploadBakedTexture", "NewFileAgentInventory", "Custom"]),
               st.booleans(), st.integers(0, 9).map(lambda i: i == 0)),
     st.tuples(st.just("proxy"), st.integers(0, 1), st.integers(0, 1), st.sampled_from(PROXY_NAMES), st.booleans()),
@@ -419,7 +497,7 @@ def run_history(ctx, ops):
 
 def shards(tier):
     th = tier == "thorough"
-    return [{"kind": "hist", "n": 2000 if th else 120, "maxlen": 60 if th else 30} for _ in range(16)]
+    return [{"kind": "hist", "n": 2000 if th else 170, "maxlen": 60 if th else 30} for _ in range(16)]
 
 
 def run_shard(ctx, shard):
